@@ -69,6 +69,15 @@ class Elf(BinFormat):
 
     def __init__(self, f):
         self.__file = f
+        try:
+            self.__parse(f)
+        except (ElfError, StructureError):
+            raise
+        except Exception as e:
+            # truncated or corrupted tables (bad offsets, indices, encodings...)
+            raise ElfError("malformed ELF file (%s)" % repr(e))
+
+    def __parse(self, f):
         self.Ehdr = Ehdr(f)
         x64 = self.Ehdr.e_ident.EI_CLASS == ELFCLASS64
         lbe = ">" if (self.Ehdr.e_ident.EI_DATA == ELFDATA2MSB) else None
